@@ -71,6 +71,7 @@ type AssertStat struct {
 	Failed       int
 	Inconclusive int
 	First        *Counterexample
+	Examples     []*Counterexample // up to 6 distinct counterexamples (replayed until one reproduces)
 }
 
 type KernelResult struct {
@@ -284,6 +285,17 @@ func (s *Session) Run(k Kernel) *KernelResult {
 			}
 		}
 		cr := r.CallGuarded(hfn, nil)
+		res.mu.Lock()
+		np := res.Asserts["no-panic"]
+		if np == nil {
+			np = &AssertStat{ID: "no-panic"}
+			res.Asserts["no-panic"] = np
+		}
+		np.Reached++
+		if cr.Panic == nil {
+			np.Proved++
+		}
+		res.mu.Unlock()
 		if cr.Panic != nil {
 			key := cr.Panic.Kind + "@" + shortPos(s.Repo, cr.Panic.Pos)
 			m, _ := r.Witness(nil)
@@ -294,8 +306,12 @@ func (s *Session) Run(k Kernel) *KernelResult {
 				res.Panics[key] = st
 			}
 			st.Failed++
-			if st.First == nil {
-				st.First = env.counterexample(r, ps, key, "panic", cr.Panic.Msg, m)
+			if len(st.Examples) < 6 {
+				ce := env.counterexample(r, ps, key, "panic", cr.Panic.Msg, m)
+				st.Examples = append(st.Examples, ce)
+				if st.First == nil {
+					st.First = ce
+				}
 			}
 			res.mu.Unlock()
 		}
